@@ -27,11 +27,11 @@ def transactions(H):
             txns[cur[who]] = {"who": who, "n": count[who], "uids": [], "offsets": [], "end": None, "end_outcome": None,
                               "begin_i": i, "end_i": None, "t_begin": o["t_ret"]}
             order.append(cur[who])
-        elif nm in ("ctx_ok", "ctx_exc", "ctx_slow"):
+        elif nm in ("ctx_ok", "ctx_exc", "ctx_slow", "ctx_slow_exc"):
             if o.get("txn"):
                 count[who] = max(count[who], o["txn"])
                 key = (who, o["txn"])
-                txns[key] = {"who": who, "n": o["txn"], "uids": [], "offsets": [], "end": "abort" if nm == "ctx_exc" else "commit",
+                txns[key] = {"who": who, "n": o["txn"], "uids": [], "offsets": [], "end": "abort" if nm in ("ctx_exc", "ctx_slow_exc") else "commit",
                              "end_outcome": o["outcome"], "begin_i": i, "end_i": i, "t_begin": o["t_call"], "ctx": nm}
                 order.append(key)
                 cur[who] = None
@@ -101,7 +101,7 @@ def judge_c07(H):
                       for e in H["txn_log"]][:40]}
         ok_commit = t["end"] == "commit" and t["end_outcome"] == "ok"
         explicit_abort = t["end"] == "abort" and (t["end_outcome"] == "ok" or
-                                                   (t.get("ctx") == "ctx_exc" and t["end_outcome"] == "exc:RuntimeError"))
+                                                   (t.get("ctx") in ("ctx_exc", "ctx_slow_exc") and t["end_outcome"] == "exc:RuntimeError"))
         if ok_commit:
             st["committed_transactions"] += 1
             committed_uids.update(t["uids"])
@@ -207,7 +207,7 @@ def judge_c07(H):
                 V.append(("transactional_call_not_completed_within_bound",
                           f"{o['op']} took {o['t_ret'] - o['t_call']:.1f}s / outcome {o['outcome']} with only retriable faults "
                           f"(bound {bound:.1f}s)", {"op": o, "program": prog, "fault_hits": H["fault_hits"]}))
-            elif o["outcome"] != "ok" and not (_name(o["op"]) == "ctx_exc" and o["outcome"] == "exc:RuntimeError") \
+            elif o["outcome"] != "ok" and not (_name(o["op"]) in ("ctx_exc", "ctx_slow_exc") and o["outcome"] == "exc:RuntimeError") \
                     and not (_name(o["op"]) in ("send", "burst") and o["outcome"] == "exc:KafkaTimeoutError"):
                 V.append(("transactional_call_failed_under_retriable_faults_only",
                           f"{o['op']} -> {o['outcome']} ({o.get('msg', '')}) although only retriable faults were injected "
@@ -249,7 +249,7 @@ def _legal_flags(H):
             legal = s == "IN"
             if legal:
                 state[who] = "READY"
-        elif nm in ("ctx_ok", "ctx_exc", "ctx_slow"):
+        elif nm in ("ctx_ok", "ctx_exc", "ctx_slow", "ctx_slow_exc"):
             legal = s == "READY"
         out.append(legal)
     return out
@@ -332,7 +332,7 @@ def judge_c16(H):
                 exp = "raise"
         elif nm in ("ctx_ok", "ctx_slow"):
             exp, nxt = ("ok", "READY") if state == "READY" else ("raise", state)
-        elif nm == "ctx_exc":
+        elif nm in ("ctx_exc", "ctx_slow_exc"):
             exp, nxt = (("raise", "RuntimeError"), "READY") if state == "READY" else ("raise", state)
         if state == "ABORTABLE":
             st["calls_after_abortable"] += 1
@@ -358,7 +358,7 @@ def judge_c16(H):
                 if nm in ("commit",) and state == "IN":
                     # commit may already raise the abortable error, or the error arrived after the commit completed
                     state = "ABORTABLE" if o["outcome"] != "ok" else "READY"
-                elif nm in ("abort", "ctx_exc", "ctx_ok", "ctx_slow"):
+                elif nm in ("abort", "ctx_exc", "ctx_slow_exc", "ctx_ok", "ctx_slow"):
                     state = "READY" if o["outcome"] in ("ok", "exc:RuntimeError") else ("ABORTABLE" if nm in ("ctx_ok", "ctx_slow") else "READY")
                     if nm in ("ctx_ok", "ctx_slow") and o["outcome"] != "ok":
                         # commit inside the context raised: the transaction is still to be aborted
